@@ -68,7 +68,7 @@ func (c *c05Ctx) end(err error) {
 	}
 }
 
-var c05Outcomes = []string{"ok", "transient", "permanent", "wrapped-permanent", "throttle0", "throttle1", "throttle10", "partial", "partial-throttle10"}
+var c05Outcomes = []string{"ok", "transient", "permanent", "wrapped-permanent", "joined-permanent", "throttle0", "throttle1", "throttle10", "partial", "partial-throttle10"}
 var c05Wakes = []string{"timer", "shutdown", "cancel"}
 
 type c05Cfg struct {
@@ -102,13 +102,17 @@ type c05Res struct {
 	returned bool
 }
 
+// every permanent backend error wraps this sentinel, so that the harness recognises "permanent" by itself (errors.Is walks
+// single and multiple wrapping alike) instead of asking the implementation's own IsPermanent
+var errC05Perm = errors.New("perm")
+
 func c05Classify(err error) string {
 	switch {
 	case err == nil:
 		return "nil"
 	case experr.IsShutdownErr(err):
 		return "shutdown"
-	case consumererror.IsPermanent(err):
+	case errors.Is(err, errC05Perm):
 		return "permanent"
 	default:
 		return "other"
@@ -137,9 +141,12 @@ func c05Body(cfg c05Cfg, maxAttempts int, res *c05Res) func() {
 			case "transient":
 				return errors.New("transient")
 			case "permanent":
-				return consumererror.NewPermanent(errors.New("perm"))
+				return consumererror.NewPermanent(errC05Perm)
 			case "wrapped-permanent":
-				return fmt.Errorf("wrapped: %w", consumererror.NewPermanent(errors.New("perm")))
+				return fmt.Errorf("wrapped: %w", consumererror.NewPermanent(errC05Perm))
+			case "joined-permanent":
+				// an aggregated error (errors.Join / multierr / two %w) with a permanent member, wrapped once more
+				return fmt.Errorf("aggregated: %w", errors.Join(errors.New("transient"), consumererror.NewPermanent(errC05Perm)))
 			case "throttle0":
 				return NewThrottleRetry(errors.New("throttled"), 0)
 			case "throttle1":
@@ -241,7 +248,7 @@ func c05Ref(cfg c05Cfg, res *c05Res) string {
 		switch o {
 		case "ok":
 			return finish("nil")
-		case "permanent", "wrapped-permanent":
+		case "permanent", "wrapped-permanent", "joined-permanent":
 			return finish("permanent") // never retried
 		case "throttle0":
 			throttle = 0
